@@ -315,7 +315,12 @@ def extract_fn(unit: str, file: str, item: str, mode: str, contracts, canary: bo
         ty_s, ty_e = toks[arrow + 1].start, toks[end_k - 1].end
         edits.append((ty_s, ty_s, '(%s: ' % c.ret, rw('A1:ret')))
         edits.append((ty_e, ty_e, ')', rw('A1:ret')))
-    # --- mut self (R1)
+    # --- mut self (R1); for a contract-only stub the `mut` is simply dropped
+    if mode == 'stub' and not (c and c.mutself):
+        for k in range(sig_lo, sig_hi - 1):
+            if toks[k].text == 'mut' and toks[k + 1].text == 'self' and toks[k - 1].text != '&' and toks[k - 1].kind != 'lifetime':
+                edits.append((toks[k].start, toks[k + 1].start, '', rw('R1')))
+                break
     if c and c.mutself:
         found = False
         for k in range(sig_lo, sig_hi - 1):
